@@ -123,6 +123,9 @@ def shard(idx, n, seed, tier, params):
                 r = ses.format(buf, on_type=(kind == "on-type"), options=options, reopen=(kind == "reopened"))
                 w = {"buffer": buf, "kind": kind, "options": options, "response": r, "expected": expected}
                 cls = "%s|%s|%s" % ("on-type" if kind == "on-type" else "formatting", "non-ascii" if any(ord(c) > 127 for c in buf) else "ascii", "crlf" if "\r\n" in buf else "lf")
+                if r.get("busy"):
+                    acc.inconc("language server still computing after the extended watchdog")
+                    break
                 if "dead" in r or "timeout" in r:
                     acc.violation("server-died|%s" % cls, "no response (%r); stderr: %s" % (r, ses.srv.stderr[-200:].decode("utf8", "replace")), w)
                     ses.close()
